@@ -73,7 +73,8 @@ claim('C10',
   "with more than 1000 agents, str.split()'s other whitespace characters and DOS line ends are exercised by the correspondence.")
 claim('C11',
   "Coq theorems: every printed quantity and listing computed from the assigned pairs equals the value computed from the instance and "
-  "the matching line alone (all 11 fields), and the assigned pairs of any 0/1 point are the pairs of its matching line. Tied to the code "
+  "the matching line alone (all 11 fields), and the assigned pairs of any 0/1 point are the pairs of its matching line; C11_command_line: "
+  "on the Solver built from its command line the whole getter text after an Optimal solve is the frame around exactly that block. Tied to the code "
   "by R_results (byte-exact get_results short/long on synthetic values) and judged by M_results against the Coq specification text.")
 claim('C12',
   "Coq theorems: the inversion lists agent i under j exactly once iff i lists j, and a student's lecturer list is exactly the lecturers "
@@ -102,7 +103,8 @@ claim('C16',
   "M_refuse (SystemExit before the file is read) / M_info on full runs. Flag-order independence is argparse's (sampled).")
 claim('C18',
   "Coq theorems: getters leave the state unchanged and return one fixed text; two runs against any correct MILP oracles (different "
-  "tie-breaks allowed) hand over the same problems (same frozen optimum per stage), same status, same log, and print a valid matching. "
+  "tie-breaks allowed) hand over the same problems (same frozen optimum per stage), same status, same log, and print a valid matching; "
+  "the same for the Solver object solved twice, also when built from its command line (C18_command_line). "
   "Tied to the code by R_session (histories over solve/get_* incl. re-solves, limits and idle gaps under a scripted clock) and judged by "
   "M_getters. F12, F13 repaired.")
 
